@@ -139,3 +139,15 @@ def short(qn: str) -> str:
 
 def where_fn(fn: FunctionInfo) -> str:
     return '%s:%d (%s)' % (fn.module.relpath, fn.node.lineno, short(fn.qn))
+
+
+def key_truth(event: Event) -> Optional[bool]:
+    """truth of the canonical atom of a test event (``x is not None`` False => isnone True)"""
+    if event.kind not in ('test', 'assert', 'retval'):
+        return None
+    return event.data.get('value') == event.data.get('positive', True)
+
+
+def tested(event: Event, key, truth: bool) -> bool:
+    return event.kind in ('test', 'assert') and event.data.get('key') == key \
+        and key_truth(event) is truth
